@@ -310,8 +310,10 @@ func cmdC03Copy(args []string) error {
 		Blocked int    `json:"blocked"` // first settle call on a copy did not return within the watchdog
 		Wrong   int    `json:"wrong"`   // returned false / wrong channel state
 		Detail  string `json:"detail,omitempty"`
+		// distinct observed histories of a copy: "ack?1:0, first settle result (0/1), Acked() closed, Nacked() closed" -> how often
+		Outcomes map[string]int `json:"outcomes"`
 	}
-	res := result{}
+	res := result{Outcomes: map[string]int{}}
 	src := message.NewMessage("src", []byte("p"))
 	stop := make(chan struct{})
 	var wg sync.WaitGroup
@@ -355,6 +357,13 @@ func cmdC03Copy(args []string) error {
 					return false
 				}
 			}
+			b2i := func(b bool) int {
+				if b {
+					return 1
+				}
+				return 0
+			}
+			res.Outcomes[fmt.Sprintf("%d %d %d %d", b2i(ack), b2i(ok), b2i(closed(c.Acked())), b2i(closed(c.Nacked())))]++
 			if !ok || closed(c.Acked()) != ack || closed(c.Nacked()) == ack {
 				res.Wrong++
 				res.Detail = fmt.Sprintf("copy %d: first settle (ack=%v) returned %v, acked closed=%v nacked closed=%v", i, ack, ok, closed(c.Acked()), closed(c.Nacked()))
